@@ -96,6 +96,7 @@ func isNamedResultCell(fn, cl *ssa.Function, fv *ssa.FreeVar) bool {
 }
 
 func c18(r *core.Run) {
+	c18Snapshot(r)
 	w := r.W
 	impls := []string{"pkg/statestore/leveldb", "pkg/statestore/mock"}
 
